@@ -142,6 +142,30 @@ int main(int argc, char** argv) {
     for (auto& x : dw.protocol->sent) sent += " " + x;
     printf("  read -f -c c dup -> ret=%d <%s> bus:[%s ]\n", static_cast<int>(r.ret), esc(r.text).c_str(), sent.c_str());
   }
+  if (which == "all" || which == "defrow") {
+    printf("[defrow] level assigned through a default row `*r,#a` (the way the published configuration files do it, e.g. `*w,#install`)\n");
+    WorldConfig dc;
+    dc.csv = "# type,circuit,name,comment,qq,zz,pbsb,id,fields...\nr,c,m0,,,08,b509,0d00,v,,UCH\n";
+    dc.useAcl = true;
+    dc.aclContent = "# name,secret,level...\n*,,\nu,s,a\n";
+    dc.deleteData = false;
+    World dw(dc, procTmpDir() + "/r");
+    {  // a second file loaded the way ScanHelper does it: default circuit from the file name
+      std::istringstream f2("# type,circuit,name,comment,qq,zz,pbsb,id,fields...\n*r,#a,,,,08,b509\nr,,lv,,,,,0d21,v,,UCH\n");
+      std::map<string, string> dflt;
+      dflt["circuit"] = "c";
+      time_t now = g_now;
+      dw.loadResult = dw.messages->readFromStream(&f2, "c.csv", now, false, &dflt, &dw.loadError);
+    }
+    printf("  load result %d %s\n", static_cast<int>(dw.loadResult), dw.loadError.c_str());
+    user = "";
+    Reply r = tcp(&dw, "find -l * -V lv", &user);
+    printf("  find -l * -f lv -> <%s>\n", esc(tcp(&dw, "find -l * -f lv", &user).text).c_str());
+    r = tcp(&dw, "read -f -c c lv", &user);
+    string sent;
+    for (auto& x : dw.protocol->sent) sent += " " + x;
+    printf("  anonymous: read -f -c c lv -> ret=%d <%s> bus:[%s ]\n", static_cast<int>(r.ret), esc(r.text).c_str(), sent.c_str());
+  }
   fflush(stdout);
   rmTree(w.tmp);
   _exit(0);
